@@ -56,11 +56,15 @@ def one(ctx, rng, k):
     # at the wrong traces gets wrong
     special = {'file_first': (0, 0), 'file_last': (n[0] - 1, n[1] - 1), 'win_first': (a0, b0), 'win_last': (a1 - 1, b1 - 1)}
     cand = [c for c in mksegy.ALL_FIELDS if mksegy.FIELD_WIDTH[c] == 4 and c not in (189, 193, 37, 115, 117) and c not in [p_[0] for p_ in plan.plan]]
-    picks = [int(c) for c in rng.choice(cand, size=5, replace=False)]
+    picks = [int(c) for c in rng.choice(cand, size=6, replace=False)]
     names = list(special)
     S1 = set(names[j] for j in range(4) if rng.random() < .5)
     S2 = set(names[j] for j in range(4) if rng.random() < .5)
     S3 = set(names[j] for j in range(4) if rng.random() < .5)
+    # (mostly a single corner: a dead first or last trace of the file that the window leaves out)
+    r4 = rng.random()
+    S4 = {'file_first'} if r4 < .35 else {'file_last'} if r4 < .55 else {'win_first'} if r4 < .65 else \
+        set(names[j] for j in range(4) if rng.random() < .5)
     for i in range(n[0]):
         for x in range(n[1]):
             t = i * n[1] + x
@@ -70,18 +74,19 @@ def one(ctx, rng, k):
             H[i][x][picks[2]] = 0 if at & S2 else 11 + t                       # zero exactly on S2
             H[i][x][picks[3]] = 4242 if (at & S3 or not at) else 17 + t        # constant except on the special traces not in S3
             H[i][x][picks[4]] = 7 + 3 * t if at & (set(names) - S1) else -5 - t  # coincides with picks[0] on the complement
+            H[i][x][picks[5]] = 0 if at & S4 else 777                          # one constant value, zero exactly on S4
     mksegy.make_segy(sgy, arr, ilines=il, xlines=xl, fmt=fmt, dt_us=dt, headers=lambda i, x, t: H[i][x])
     sub = ctx.path('sub.sgy')
     mksegy.make_segy(sub, arr[a0:a1, b0:b1], ilines=il[a0:a1], xlines=xl[b0:b1], fmt=fmt, dt_us=dt,
                      headers=lambda i, x, t: H[i + a0][x + b0])
     with open(sgy, 'rb') as f1, open(sub, 'r+b') as f2:   # same textual + binary file header in both sources
         f2.write(f1.read(3600))
-    mode = ['heuristic', 'thorough', 'exhaustive', 'strip'][k % 4]
+    mode = ['heuristic', 'thorough', 'exhaustive', 'strip'][(k + k // 4) % 4]   # (every mode meets every window class)
     ri = bool((k // 2) % 2)
     q, bs = [(16, None), (32, (4, 4, -1)), (16, (8, 8, -1)), (8, (4, 8, -1))][k % 4]
     desc = {'n': n, 'window': (a0, a1, b0, b1), 'mode': mode, 'reduce_iops': ri, 'q': q, 'bs': bs, 'il': il[:2], 'xl': xl[:2],
             'fmt': fmt, 'plan': [(c, kk) for c, kk, _ in plan.plan],
-            'coincide_on': sorted(S1), 'zero_on': sorted(S2), 'const_except': sorted(set(names) - S3), 'fields': picks}
+            'coincide_on': sorted(S1), 'zero_on': sorted(S2), 'const_except': sorted(set(names) - S3), 'const_zero_on': sorted(S4), 'fields': picks}
     ctx.case((n, (a0, a1, b0, b1), mode, ri, q, bs), sample=desc)
     ctx.stats['mode_' + mode] += 1
     ctx.stats['window_starts_at_0'] += int(a0 == 0 or b0 == 0)
